@@ -42,9 +42,9 @@ Proof.
   - destruct (open_inode cf s i f) as [[[hi fl]|e] s1] eqn:Ho; inversion H; subst; apply (open_inode_creds _ _ _ _ _ _ Ho).
 Qed.
 
-Lemma check_fd_flags_creds : forall s hid hd f hd' s', check_fd_flags s hid hd f = (hd', s') -> p_creds s' = p_creds s.
+Lemma check_fd_flags_creds : forall cf s hid hd f hd' s', check_fd_flags cf s hid hd f = (hd', s') -> p_creds s' = p_creds s.
 Proof.
-  intros s hid hd f hd' s' H. unfold check_fd_flags in H.
+  intros cf s hid hd f hd' s' H. unfold check_fd_flags in H.
   destruct (hd_flags hd =? f); [inversion H; subst; reflexivity|].
   destruct hid; inversion H; subst; reflexivity.
 Qed.
@@ -233,14 +233,14 @@ Proof.
   - (* read *)
     destruct (get_data cf (c_no_open cf) s handle inode O_RDONLY) as [[[hid hd]|e] s1] eqn:Hg;
       pose proof (get_data_creds _ _ _ _ _ _ _ _ Hg) as C1; [|inv4 H; rewrite C1; exact Hc].
-    destruct (check_fd_flags s1 hid hd flags) as [hd' s2] eqn:Hf. pose proof (check_fd_flags_creds _ _ _ _ _ _ Hf) as C2.
+    destruct (check_fd_flags cf s1 hid hd flags) as [hd' s2] eqn:Hf. pose proof (check_fd_flags_creds _ _ _ _ _ _ _ Hf) as C2.
     destruct (negb (acc_r (hd_acc hd'))); [inv4 H; rewrite C2, C1; exact Hc|].
     destruct (hd_direct hd' && (0 <? size)); [inv4 H; rewrite C2, C1; exact Hc|].
     destruct (sys_pread (p_host s2) (hd_host hd') size off); inv4 H; rewrite C2, C1; exact Hc.
   - (* write *)
     destruct (get_data cf (c_no_open cf) s handle inode O_RDWR) as [[[hid hd]|e] s1] eqn:Hg;
       pose proof (get_data_creds _ _ _ _ _ _ _ _ Hg) as C1; [|inv4 H; rewrite C1; exact Hc].
-    destruct (check_fd_flags s1 hid hd flags) as [hd' s2] eqn:Hf. pose proof (check_fd_flags_creds _ _ _ _ _ _ Hf) as C2.
+    destruct (check_fd_flags cf s1 hid hd flags) as [hd' s2] eqn:Hf. pose proof (check_fd_flags_creds _ _ _ _ _ _ _ Hf) as C2.
     match type of H with context [with_killpriv ?c s2 ?b] => destruct (with_killpriv c s2 b) as [r s3] eqn:Hw end.
     assert (C3 : p_creds s3 = root_creds).
     { refine (with_killpriv_root _ _ _ _ _ _ _ Hw _); [|rewrite C2, C1; exact Hc].
